@@ -58,6 +58,13 @@ var checks = map[string]checkCfg{
 		Rule:        "same generators as C05; the client re-uses every handle value it was ever given (GETATTR, LOOKUP through it), values are released directly and the export is Unexport()ed and re-mounted; non-trivial = a request used a value after the entry it named was evicted/released (proto) or an eviction happened (map); distinct = FNV-64 of the case JSON",
 		Assumptions: baseAssumptions,
 		Phases:      []phase{rp("map", "^TestC06Map$", 3, 1500, 8, 20000), rp("proto", "^TestC06Proto$", 3, 800, 8, 8000)}},
+	"C07": {Level: "exploration", Technique: "bounded-exhaustive adversarial names + rapid + native fuzz vs backend call recorder",
+		Rule:        "phase enum: every string of length <=3 over the alphabet {. / \\ NUL a space 0x80 0xFF} plus long names (254..8193 bytes) and traversal constants, each sent as the name (or symlink target / mount path) of all 13 name-taking request kinds on a fresh server pre-seeded with hostile symlinks; phase rapid: random byte strings and '..'-laden paths after a random namespace history; thorough adds a native fuzz campaign; every backend call of every request is judged; non-trivial = the string is not a plain valid component (or a pre-seeded hostile link was read); distinct = FNV-64 of the case JSON",
+		Assumptions: append([]string{"'a handle's path' is taken from the server's handle table (accumulated over the history) while absoluteness and normalisation are required of every path independently", "for MOUNT only absolute and clean is required (MNT takes a path, not a name)"}, baseAssumptions...),
+		Phases: []phase{
+			{Name: "enum", Variant: "plain", Tests: "^TestC07Enum$", QuickShards: 4, ThoroughShards: 8},
+			rp("rapid", "^TestC07$", 4, 1500, 16, 15000),
+			{Name: "fuzz", Variant: "plain", ThoroughOnly: true, Fuzz: "^FuzzC07$", FuzzSeconds: 120, ThoroughShards: 1}}},
 	"C02": {Level: "exploration", Technique: "rapid histories vs POSIX tree model + cached-vs-uncached differential",
 		Rule:        "cases are rapid-generated sequential histories of LOOKUP/CREATE/MKDIR/SYMLINK/REMOVE/RMDIR/RENAME/READDIR(PLUS)/GETATTR/READLINK over names {a,b,c} to depth 3, addressed through every handle ever issued (stale ones included); each history runs under the all-off baseline and k cached configurations (quick 3, thorough 6 of 15); non-trivial = a read-type request on a name or directory affected by an earlier successful mutation, executed under a configuration with at least one cache on; distinct = FNV-64 of the case JSON",
 		Assumptions: append([]string{"documented latitude L1-L7 of DESIGN.md §5 C02 (REMOVE of empty dir, UNCHECKED/EXCLUSIVE on existing objects, error code identity not compared against the model, path-bound handles)"}, baseAssumptions...),
